@@ -5,3 +5,16 @@ from checks.wfcommon import report
 
 def run(ctx):
     report(ctx, "C39", "with_ingredients")
+    # directed: a version-1 claim that takes over, through a Reader, an ingredient recorded with a validation failure (the
+    # general replay uses the Reader entry point for version-2 claims and for model-chosen clean chains only)
+    import json
+    probe = {"id": 3307, "ops": [{"arch": 0, "cv": 1, "fl": "sync", "i": 0, "ings": [0], "op": "S", "via": "stream"}, {"arch": 0, "fl": "sync", "i": 1, "ings": [], "op": "T"},
+                                 {"arch": 0, "cv": 1, "fl": "sync", "i": 0, "ings": [2], "op": "S", "via": "reader"}]}
+    p = vh(["wf-run", "--no-fresh"], stdin=json.dumps(probe), timeout=600)
+    o = json.loads(p.stdout.splitlines()[0])
+    if not o.get("completed") or len(o.get("assets", [])) != 3:
+        raise ToolError("directed probe did not complete: %s" % [s.get("err") for s in o.get("steps", [])])
+    ing = (o["assets"][2].get("ings") or [{}])[0]
+    if ing.get("ok") is not False:
+        ctx.violation("recorded-validation-lost:v1-claim:ingredient-from-reader", "a version-1 claim that takes over, with add_ingredient_from_reader, an ingredient recorded with %s reports that ingredient without any validation status" % o["assets"][1].get("failures"), {"ops": probe["ops"], "ingredient": ing})
+    ctx.cov["traces_validated_against_impl"] += 1
